@@ -144,7 +144,17 @@ def same_arr(a, b):
         mp[va] = X.var(vb)
     ba = subst_val(A.body, mp)
     if isinstance(ba, PV) or isinstance(B.body, PV):
-        return (HOLDS, "") if vkey(ba) == vkey(B.body) else (UNKNOWN, "conditional array bodies differ")
+        if vkey(ba) == vkey(B.body): return HOLDS, ""
+        if isinstance(ba, PV) and not isinstance(B.body, PV) and to_x(B.body) is not None:
+            # a conditional element against an unconditional reference: every branch must be the reference
+            worst = (HOLDS, "")
+            for path, leaf in pv_leaves(ba):
+                if is_opaque(leaf) or to_x(leaf) is None: worst = (UNKNOWN, f"on [{path_text(path)}] the element is {leaf!r}"[:200]) if worst[0] == HOLDS else worst; continue
+                st, why = compare(to_x(leaf), to_x(B.body))
+                if st == VIOLATED: return VIOLATED, f"on the branch [{path_text(path)}] the element is {leaf!r} instead of {B.body!r}"[:400]
+                if st != HOLDS and worst[0] == HOLDS: worst = (st, why)
+            return worst
+        return UNKNOWN, "conditional array bodies differ"
     if is_opaque(ba): return UNKNOWN, ba.why
     st, why = compare(to_x(ba), to_x(B.body))
     return st, (f"element {ba!r} instead of {B.body!r} {why}" if st != HOLDS else "")
@@ -691,7 +701,8 @@ def check_band_mask(ctx, rule="R7-band-mask"):
 
 
 # ---------------------------------------------------------------------------- R6 assembly
-def check_assembly(ctx, rule="R6-assembly"):
+def check_assembly(ctx, rule="R6-assembly", only=None):
+    setup()
     repo = ctx.repo
     fkey = AN + ".compute"; fn = repo.get(fkey); ctx.analysed(fkey, AN + "._lpsd_core")
     where = repo.where(fkey, fn)
@@ -723,6 +734,7 @@ def check_assembly(ctx, rule="R6-assembly"):
         from .symalg import I_ as IMAG
         expect = {"XX": out("MXX"), "YY": out("MYY"), "XY": out("mu_r") + X(IMAG) * out("mu_i"), "S12": S1 * S1, "S2": S2, "M2": out("M2")}
         for k, want in expect.items():
+            if only is not None and k not in only: continue
             c = f"{fkey}[{mode}:{k}]"
             v = d.get(k)
             A = local_to_arr(v) if isinstance(v, LocalArr) else as_arr(v) if v is not None else None
@@ -731,10 +743,11 @@ def check_assembly(ctx, rule="R6-assembly"):
             st_, why = same_arr(A, Arr([(j, X.var("nf"))], want))
             ctx.ob(rule, c, st_, (f"result field {k}[bin] is not the {k} statistic of that bin: " + why) if why else "", where)
         for k in ("f", "L", "K", "navg", "D", "r", "b", "O"):
+            if only is not None and k not in only: continue
             c = f"{fkey}[{mode}:{k}]"
             ok = d.get(k) is plan.d.get(k)
             (ctx.holds if ok else ctx.violated)(rule, c, "plan field passed through" if ok else f"result field {k} is not the plan's {k}", where)
-        if len(args) >= 4:
+        if len(args) >= 4 and only is None:
             ok = args[2] is iscsd or args[2] == iscsd
             (ctx.holds if ok else ctx.violated)(rule, f"{fkey}[{mode}:iscsd]", "" if ok else "result labelled with the wrong analysis type", where)
             fsok = isinstance(args[3], X) and args[3].eq(X.var("fs"))
